@@ -468,6 +468,11 @@ def uncovered_pd_path(
         # we now want to start on the second_node
         start_node = second_node
 
+        # the edge from 'u' to 'second_node' is the first edge of the path,
+        # so it has to be potentially directed as well
+        if not _potentially_directed_edge(graph, u, second_node, force_circle):
+            return uncov_pd_path, found_uncovered_pd_path
+
     # now add 'a' to the queue and begin exploring
     # adjacent nodes that are connected with bidirected edges
     path = deque([start_node])
